@@ -217,58 +217,4 @@ Proof.
   intros [E|E]; auto.
 Qed.
 
-(* ---- the field effects of the writes of a switch ------------------------------------- *)
-
-Definition head_ws (lastmid : bool) (x : block) : list (bool * write) :=
-  [(true, [WHeadH (bid x)]); (true, [WCanon (bnum x) (bid x)]); (lastmid, [WHeadB (bid x)])].
-
-Definition look_ws (txs : list N) (h : N) : list (bool * write) := map (fun tx => (true, [WLook tx h])) txs.
-
-Definition reorg_ws (l : list block) : list (bool * write) :=
-  flat_map (fun x => head_ws true x ++ look_ws (btxs x) (bid x)) l.
-
-Record same (s s' : st) : Prop := mkSame {
-  same_disk : disk_of s = disk_of s'; same_budget : budget s = budget s'; same_mid : crashmid s = crashmid s' }.
-
-Lemma same_refl : forall s, same s s.
-Proof. intros; constructor; auto. Qed.
-
-Lemma same_wr : forall m w s s', same s s' -> same (wr m w s) (wr m w s').
-Proof.
-  intros m w s s' [A B C]. unfold wr. destruct w as [|e w]; [constructor; auto|].
-  rewrite <- B. destruct (budget s) as [[|k]|] eqn:Eb; constructor; simpl; try congruence; auto.
-Qed.
-
-Lemma same_wrs : forall l s s', same s s' -> same (wrs l s) (wrs l s').
-Proof. induction l as [|[m w] l IH]; cbn [wrs]; intros; auto. apply IH. apply same_wr; auto. Qed.
-
-Lemma same_set_cur : forall h s, same (set_cur h s) s.
-Proof. intros; constructor; auto. Qed.
-
-Lemma same_trans : forall a b c, same a b -> same b c -> same a c.
-Proof. intros a b c [A1 A2 A3] [B1 B2 B3]; constructor; congruence. Qed.
-
-Lemma same_sym : forall a b, same a b -> same b a.
-Proof. intros a b [A1 A2 A3]; constructor; auto. Qed.
-
-Lemma set_head_same : forall m x s, same (set_head m x s) (wrs (head_ws m x) s).
-Proof. intros; unfold set_head, head_ws; cbn [wrs]. apply same_set_cur. Qed.
-
-Lemma look_writes_same : forall txs h s s', same s s' ->
-  same (fold_left (fun s tx => wr true [WLook tx h] s) txs s) (wrs (look_ws txs h) s').
-Proof.
-  unfold look_ws. induction txs as [|a txs IH]; cbn [fold_left map wrs]; intros; auto. apply IH. apply same_wr; auto.
-Qed.
-
-Lemma reorg_apply_same : forall l s s', same s s' -> same (reorg_apply l s) (wrs (reorg_ws l) s').
-Proof.
-  induction l as [|x l IH]; intros s s' H; auto.
-  cbn [reorg_apply reorg_ws flat_map]. rewrite wrs_app. apply IH.
-  rewrite wrs_app. apply look_writes_same.
-  eapply same_trans; [apply set_head_same|]. apply same_wrs; auto.
-Qed.
-
-Lemma alive_same : forall s s', same s s' -> (alive s <-> alive s').
-Proof. intros s s' [A B C]. unfold alive. rewrite B. tauto. Qed.
-
 End Switch.
